@@ -109,6 +109,8 @@ package rjson
 //@   allocsite 16*p + 1024
 //@   input data
 //@   scratch stack
+//@   sim value limit=10000 fast=1 pos@_again=p+1 key@_again=cs
+//@   ensures @sim [C11] accepts(data) ==> err == nil && p == endof(data)
 //@   cuts st_case_*, _again
 //@   candidates err == nil; 0 <= p; p < pe; 0 <= top; top <= len(stack); top >= 1; top == 0; top <= 10000
 //@   candidates top == 0 ==> retmain(cs); top >= 1 ==> retsub(cs)
@@ -249,6 +251,8 @@ package rjson
 //@ func SkipValueFast(data, buffer) (p, err)
 //@   input data
 //@   scratch buffer
+//@   sim value init=none
+//@   ensures @sim [C11] accepts(data) ==> err == nil && p == endof(data)
 //@   assigns buffer.stackBuf
 //@   ensures err == nil ==> 0 <= p && p <= len(data)
 //
